@@ -235,3 +235,55 @@ func VerifC11Long() {
 		verifAssert(rd.rowsRead()-at <= 1, "C11.stops/reader")
 	}
 }
+
+func init() {
+	verifRegister("VerifC11Many", VerifC11Many)
+}
+
+// VerifC11Many: more failing root blocks than a stage has workers (each stage has ten; a worker that reports an error
+// leaves): 11 or 12 blocks that all fail in the same stage (parse: an item without text; validation: a name that is no
+// path element, on the routes that validate), followed or not by a good block, on text output, walk, dry-run output,
+// mkdir and verify: the call returns, reports an error and leaves nothing behind.
+func VerifC11Many() {
+	k := 11 + int(verifChoose("extraBad", 0, 1))
+	stage := verifChoose("stage", 0, 1)
+	var rows []string
+	for i := 0; i < k; i++ {
+		rows = append(rows, "- r"+string(rune('a'+i)))
+		if stage == 0 {
+			rows = append(rows, "  -")
+		} else {
+			rows = append(rows, "  - x/y")
+		}
+	}
+	if verifFlag("goodTail") {
+		rows = append(rows, "- z", "  - c")
+	}
+	ctx := context.Background()
+	w := newVerifWriter()
+	var err error
+	lo := uint(0)
+	if stage == 1 {
+		lo = 2 // only the routes that validate names
+	}
+	verifContext("C11.many")
+	switch verifChoose("op", lo, 4) {
+	case 0:
+		err = OutputFromMarkdown(w, &verifReader{lines: rows}, WithMassive(ctx))
+	case 1:
+		err = WalkFromMarkdown(&verifReader{lines: rows}, func(*WalkerNode) error { return nil }, WithMassive(ctx))
+	case 2:
+		err = OutputFromMarkdown(w, &verifReader{lines: rows}, WithMassive(ctx), WithDryRun())
+	case 3:
+		vfsReset()
+		vfsSeal()
+		err = MkdirFromMarkdown(&verifReader{lines: rows}, WithMassive(ctx), WithTargetDir(vfsTarget()))
+	case 4:
+		vfsReset()
+		vfsSeal()
+		err = VerifyFromMarkdown(&verifReader{lines: rows}, WithMassive(ctx), WithTargetDir(vfsTarget()))
+	}
+	verifReach("C11.many.returns")
+	verifAssert(err != nil, "C11.many.reported")
+	verifAssert(verifQuiesce() == 0, "C11.noleak/many")
+}
